@@ -148,9 +148,11 @@ containers, nested to any depth (the structure of save files), fields written wi
 the optional `=` before `{` (`a={..}` and `a{..}` have the same content), ghost `{}` in key
 position and at the start of a container, headers (`rgb {..}`) in field-value position, a BOM in
 front, `@variables` and `@[..]` as keys, values and array elements, object→array mixed
-containers (fields followed by bare scalars).  Missing fragments: parameter blocks; a header or
-a ghost on the FIRST field of a nested container; containers inside the array part of a mixed
-container.  These are decided by the correspondence run and the layout/faithfulness oracles.
+containers (fields followed by bare scalars), parameter blocks in key position (value and object
+form).  Missing: a parameter block as the FIRST thing inside a container; a header, an implicit
+`=` or a ghost on the FIRST field of a nested container; containers inside the array part of a
+mixed container; operators inside arrays.  These are decided by the correspondence run and the
+layout/faithfulness oracles.
 -/
 /-- fragment 1 of C01_faithful: a flat document under ANY valid layout parses to a tape that is,
 up to the scalar positions, exactly the document's keys, operators and scalar bytes (quoted vs
@@ -286,6 +288,41 @@ example (fs : KFields) (vs : List Scal) (b : Nat) :
 /-- the hypotheses are satisfiable: `a={b=c d e}⏎`. -/
 example : JValidF exampleMixed [10] ∧ Blank [10] ∧ hasBom (jrenderF exampleMixed ++ [10]) = false :=
   exampleMixed_valid
+
+/-- C01_faithful, parameter blocks in key position (top level or between the fields of a
+container): `[[name] value ]` / `[[!name] value ]` give `Parameter` / `UndefinedParameter` followed
+by the value; `[[name] key op value fields… ]` gives the parameter token followed by an object (its
+first key always read as an unquoted scalar) that the `]` closes. -/
+theorem C01_faithful_param_value_partial (g0 : Bytes) (isU : Bool) (name g1 : Bytes) (val : Scal) (g2 : Bytes)
+    (rest : JFields) (gt : Bytes) (hgt : Blank gt)
+    (hv : JValidF (.paramVal g0 isU name g1 val g2 rest) gt)
+    (hb : hasBom (jrenderF (.paramVal g0 isU name g1 val g2 rest) ++ gt) = false) :
+    ∃ T, parse (jrenderF (.paramVal g0 isU name g1 val g2 rest) ++ gt) = .ok T false ∧
+      T.map Tok.erase =
+        [paramTok isU ⟨0, name⟩, .unquoted ⟨0, val.bytes⟩] ++ ktapeF (kcontentF rest) (0 + 2) := by
+  obtain ⟨T, h1, h2⟩ := faithful_tree _ gt hgt hv hb
+  exact ⟨T, h1, by rw [h2]; simp only [kcontentF, ktapeF]⟩
+
+theorem C01_faithful_param_object_partial (g0 : Bytes) (isU : Bool) (name g1 : Bytes) (k : Scal) (g2 : Bytes)
+    (o : Op) (v : JVal) (inner : JFields) (gc : Bytes) (rest : JFields) (gt : Bytes) (hgt : Blank gt)
+    (hv : JValidF (.paramObj g0 isU name g1 k g2 o v inner gc rest) gt)
+    (hb : hasBom (jrenderF (.paramObj g0 isU name g1 k g2 o v inner gc rest) ++ gt) = false) :
+    ∃ T, parse (jrenderF (.paramObj g0 isU name g1 k g2 o v inner gc rest) ++ gt) = .ok T false ∧
+      T.map Tok.erase =
+        ktapeF (.paramObj isU name (.cons ⟨false, k.bytes⟩ o (kcontentV v) (kcontentF inner)) (kcontentF rest)) 0 :=
+  faithful_tree _ gt hgt hv hb
+
+/-- …where the tape of a parameter block in object form is: the parameter token, `Object(end)`,
+the fields, `End`. -/
+example (isU : Bool) (name : Bytes) (fs rest : KFields) (b : Nat) :
+    ktapeF (.paramObj isU name fs rest) b =
+      [paramTok isU ⟨0, name⟩, .object (b + 2 + kcntF fs) false] ++ ktapeF fs (b + 2) ++
+        [.endTok (b + 1)] ++ ktapeF rest (b + (3 + kcntF fs)) := by
+  simp only [ktapeF]
+
+/-- the hypotheses are satisfiable: `[[x] a=b c=d ] [[!y] v ] e=f⏎`. -/
+example : JValidF exampleParam [10] ∧ Blank [10] ∧ hasBom (jrenderF exampleParam ++ [10]) = false :=
+  exampleParam_valid
 
 /-- C01_faithful, BOM in front of a structured document: same tape (positions included, since the
 model records them relative to the end of the input), BOM flag set. -/
